@@ -473,9 +473,50 @@ theorem rollLaw_mod (k : Nat) : RollLaw (fun n => k % n) := fun _ hn => Nat.mod_
 /-- `sorted(self.pack.keys())` as integers -/
 def sizesOf (d : PackDict) : List Int := (sortedKeys d).map Int.ofNat
 
+private theorem mem_insertSorted (a x : Nat) (l : List Nat) : x ∈ insertSorted a l ↔ x = a ∨ x ∈ l := by
+  induction l with
+  | nil => simp [insertSorted]
+  | cons b l ih =>
+    simp only [insertSorted]
+    split
+    · simp
+    · simp only [List.mem_cons, ih]
+      constructor
+      · rintro (h | h | h)
+        · exact Or.inr (Or.inl h)
+        · exact Or.inl h
+        · exact Or.inr (Or.inr h)
+      · rintro (h | h | h)
+        · exact Or.inr (Or.inl h)
+        · exact Or.inl h
+        · exact Or.inr (Or.inr h)
+
+private theorem length_insertSorted (a : Nat) (l : List Nat) : (insertSorted a l).length = l.length + 1 := by
+  induction l with
+  | nil => rfl
+  | cons b l ih =>
+    simp only [insertSorted]
+    split
+    · simp
+    · simp [ih]
+
+private theorem mem_sortNat (x : Nat) (l : List Nat) : x ∈ sortNat l ↔ x ∈ l := by
+  induction l with
+  | nil => simp [sortNat]
+  | cons a l ih =>
+    have : sortNat (a :: l) = insertSorted a (sortNat l) := rfl
+    rw [this, mem_insertSorted, ih]; simp
+
+private theorem length_sortNat (l : List Nat) : (sortNat l).length = l.length := by
+  induction l with
+  | nil => rfl
+  | cons a l ih =>
+    have : sortNat (a :: l) = insertSorted a (sortNat l) := rfl
+    rw [this, length_insertSorted, ih]; simp
+
 private theorem mem_sizesOf (d : PackDict) (b : Int) :
     b ∈ sizesOf d ↔ ∃ k l, (k, l) ∈ d ∧ (k : Int) = b := by
-  simp only [sizesOf, sortedKeys, List.mem_map, List.mem_mergeSort]
+  simp only [sizesOf, sortedKeys, List.mem_map, mem_sortNat]
   constructor
   · rintro ⟨k, ⟨⟨k', l⟩, h1, h2⟩, h3⟩
     simp only at h2
@@ -486,7 +527,7 @@ private theorem mem_sizesOf (d : PackDict) (b : Int) :
 
 theorem getModulus_empty (roll : Nat → Nat) (p : Pack) (h : p.pack = []) (mn pf mx : Int) :
     p.getModulus roll mn pf mx = .error .noModuli := by
-  simp [Pack.getModulus, sortedKeys, h]
+  simp [Pack.getModulus, sortedKeys, sortNat, h]
 
 /-- `get_modulus` on a non-empty pack returns a stored group whose size is the one `pickSize` selects; the
 `KeyError`/`IndexError` paths are unreachable. -/
@@ -495,7 +536,7 @@ theorem getModulus_ok (roll : Nat → Nat) (hroll : RollLaw roll) (p : Pack)
     ∃ k x, p.getModulus roll mn pf mx = .ok x ∧ MemD p.pack k x ∧
       (k : Int) = pickSize (sizesOf p.pack) mn pf mx := by
   have hlen : (sortedKeys p.pack).length ≠ 0 := by
-    simp only [sortedKeys, List.length_mergeSort, List.length_map]
+    simp only [sortedKeys, length_sortNat, List.length_map]
     intro h; exact hne (List.eq_nil_of_length_eq_zero h)
   have hsz_ne : sizesOf p.pack ≠ [] := by
     intro h
@@ -668,7 +709,7 @@ theorem gexTriple_spec (a b c : Int) :
     rw [← hp]; by_cases h1 : b > 8192 <;> by_cases h2 : b < 1024 <;> simp [h1, h2] <;> omega
   have hp1 : 1024 ≤ p ∧ p ≤ 8192 := by
     rw [hpv]; by_cases h1 : b > 8192 <;> by_cases h2 : b < 1024 <;> simp [h1, h2] <;> omega
-  refine ⟨?_, ?_, hp1.1, hp1.2, hpv, rfl, rfl⟩
+  refine ⟨?_, ?_, hp1.1, hp1.2, hpv, trivial, trivial⟩
   · by_cases h : a > p <;> simp [h] <;> omega
   · by_cases h : c < p <;> simp [h] <;> omega
 
@@ -712,6 +753,21 @@ theorem gex_unaffected_by_fix (bs : List Int) (a b c : Int) :
 
 /-! ## non-vacuity -/
 
+/-- a two-line moduli file: an 8-bit and a 12-bit group, plus a comment and a line failing the tests field -/
+def demoFile : List (List Char) :=
+  ["# comment".toList, "20240101000000 2 6 100 7 2 FF".toList, "20240101000000 2 6 100 12 5 0x0fff".toList,
+   "20240101000000 2 2 100 9 2 1FF".toList]
+
+example : LineOffers "20240101000000 2 6 100 7 2 FF".toList 8 2 255 :=
+  ⟨'2', "0240101000000 2 6 100 7 2 FF".toList, ⟨2, 6, 100, 7, 2, 255⟩, by decide, by decide, by decide, by decide⟩
+example : Avail demoFile 8 :=
+  ⟨"20240101000000 2 6 100 7 2 FF".toList, by simp [demoFile], 2, 255,
+    ⟨'2', "0240101000000 2 6 100 7 2 FF".toList, ⟨2, 6, 100, 7, 2, 255⟩, by decide, by decide, by decide, by decide⟩⟩
+example : (Pack.empty.readFile demoFile).pack = [(8, [(2, 255)]), (12, [(5, 4095)])] := by decide
+example : (Pack.empty.readFile demoFile).getModulus (fun n => 0 % n) 9 10 16 = .ok (5, 4095) := by rfl
+example : (Pack.empty.readFile demoFile).getModulus (fun n => 0 % n) 1 20 16 = .ok (5, 4095) := by rfl
+example : gexTriple 4096 2048 8192 = (2048, 2048, 8192) := by decide
+example : gexTriple 1024 1000000 2000 = (1024, 8192, 8192) := by decide
 /-- the defect fixed by `b >= min` in the first pass: with the old first pass the request
 (min 1500, prefer 1000, max 3000) over sizes {1024, 2048} selected 1024; now 2048 -/
 example : pickSize [1024, 2048] 1500 1000 3000 = 2048 := by decide
